@@ -27,7 +27,7 @@ for f in ("patch.diff", "demo.rs", "notes.md"):
 notes = open(os.path.join(src, "notes.md")).read().split("\n")
 needs = " ".join(l.strip() for l in notes[1:8] if l.strip())[:400]
 meta = {
-    "id": prop + letter, "property": prop, "also_breaks": also, "needs_to_manifest": needs, "round": (4 if area.startswith("Y") else 3),
+    "id": prop + letter, "property": prop, "also_breaks": also, "needs_to_manifest": needs, "round": (5 if area.startswith("Z") else 4 if area.startswith("Y") else 3),
     "area": area + var,
     "origin": ("written by an independent sub-agent given the texts of all 19 properties, a KIND of change (casts, error handling, performance, well-meant behaviour changes, de-duplication, inputs with structure random generation rarely produces) and a scratch worktree of /repo; it chose the property to break (round 4)" if area.startswith("Y") else "written by an independent sub-agent given the texts of all 19 properties, a source area and a scratch worktree of /repo; it chose the property to break (round 3)"),
     "confirmed": "tools/confirm_seed.sh in a scratch worktree: demo passes on the unmodified tree, fails with the patch; the 54 baseline tests pass with the patch",
